@@ -221,7 +221,7 @@ CLAIMED["C08"] = dict(
     "shorter than an indexed string (C08_coordinates); whenever all anchored affixes of an N-free read that the dictionary knows belong to one adapter and one of them has an indexed length "
     "that fits, a match is reported and it is a match of that adapter (C08_unique_reported: loop over descending lengths, sequential affix shrinking = direct slicing). the error count of every entry is its exact distance within the tolerance -- the edit distance for adapters with indels (C08_entry_exact: the banded DP of edit_environment "
     "computes in every cell of the band the prefix distance capped at k+1; cells outside the band have distance > k), the Hamming distance otherwise; for reads with N the fallback reports a match of that adapter against the affix that covers the whole affix, with that match's own (by C01 exact) error count (C08_n_fallback_covers, after the repair of F8c). The statement of the property is "
-    "thereby covered by theorems on the model; the clause about agreement with one-by-one search is C08_agrees_with_one_by_one (Proofs/IndexAgree.v) for anchored 5' adapters: equal length, no indels, N-free reads with a unique nearest adapter among those within their own tolerance -> index_match and the best of the individual comparers (best_match, C09's rule) give the same adapter, coordinates and errors (anchored 3' adapters: by the oracle only). Tie to the code rests on the correspondence (IndexedPrefix/SuffixAdapters.match_to, the index's string lengths and "
+    "thereby covered by theorems on the model; the clause about agreement with one-by-one search is C08_agrees_with_one_by_one / C08_agrees_with_one_by_one_suffix (Proofs/IndexAgree.v) for anchored 5' and 3' adapters: equal length, no indels, N-free reads with a unique nearest adapter among those within their own tolerance -> index_match and the best of the individual comparers (best_match, C09's rule) give the same adapter, coordinates and errors. Tie to the code rests on the correspondence (IndexedPrefix/SuffixAdapters.match_to, the index's string lengths and "
     "dictionary content on probe strings vs the extracted model; 16k-200k cases) and on the textbook-distance oracle (soundness incl. coordinates and exact errors for all reads incl. reads with N, unique occurrence, "
     "agreement with one-by-one search and order independence for equal lengths without indels; also at the command line with and without --no-index). Genuine defects found and repaired: "
     "F8a (9002ce0), F8b (db1eac7), F8c (b1d2a97: N fallback removed more bases than were aligned).",
